@@ -24,8 +24,9 @@ MANIFEST = {
     "text": "Machine-checked Coq theorems (Properties/C10.v) over executable models of RcvdJournal, SentJournal and AckFrame: for every "
             "operation history, an ACK frame generated for a registered `largest` enumerates only registered packet numbers, reports the "
             "requested largest, has non-negative fields (no u32 underflow) and an encoding size <= the capacity given; with a capacity "
-            "above the full size it lists every tracked number <= largest (at capacity == full size the last range is dropped: finding "
-            "F30, refuted-witness theorem + conditional theorem); a registered number is never accepted again by decode_pn; the sent "
+            ">= the full size it lists every tracked number <= largest (full strength since the fix of F30, `capacity >= size`), and "
+            "generating a frame never removes a number from the tracked set, so what was cut for capacity is listed by the next frame "
+            "with room; a registered number is never accepted again by decode_pn; the sent "
             "journal keeps |queue| = sum of nframes and on_packet_acked / may_loss_packet yield exactly the frames recorded for that "
             "packet number while it is in flight, and nothing after it was acknowledged. The models are tied to the Rust by running the "
             "extracted model and the real ArcRcvdJournal / ArcSentJournal on the same op lists (full state dumps through a cfg hook), and "
@@ -44,7 +45,6 @@ def oracle(case, obs):
 STREAMS = [{
     "name": "journal", "pkg": "hr", "bin": "impl_journal",
     "gen": J.gen, "oracle": oracle, "nontrivial": J.nontrivial, "hist": J.hist, "mutate": J.mutate,
-    "classify": J.classify,
     "profiles": ("debug",), "profiles_thorough": ("debug",),
     "rule": RULE,
 }]
